@@ -1,7 +1,7 @@
 """C19 bounded stand-in: objects behave as values.  A history of public queries / conversions is run on one long-lived object;
 every answer is compared with the answer of the same call on a freshly built equal object; returned objects are mutated through their
 public mutators; at the end the structure of the operand(s) must be what it was."""
-import random, itertools, json
+import random, itertools, json, hashlib
 from specs import fa as F, cfg as C, pda as P, fst as X, ig as IG, regex as RX
 
 
@@ -140,7 +140,15 @@ def maker(kind, d):
     if kind == 'Regex':
         from pyformlang.regular_expression import Regex
         return lambda: Regex(d), RE_OPS, lambda r: (str(r), r.get_tree_str())
-    if kind == 'CFG': return lambda: C.build(C.from_json(d)), CFG_OPS, lambda g: C.extract(g)
+    if kind == 'CFG':
+        def mk_cfg(d=d):
+            from pyformlang.cfg import CFG, Variable, Terminal, Production
+            g = C.from_json(d); obj = lambda s_: Variable(s_[1]) if C.is_var(s_) else Terminal(s_[1])
+            prods = [Production(obj(h), [obj(x) for x in b]) for h, b in sorted(g[1], key=repr)]
+            order = int(hashlib.sha1(json.dumps(d, sort_keys=True).encode()).hexdigest(), 16)
+            if order % 3 == 1: prods.reverse()
+            return CFG(start_symbol=Variable(g[0][1]), productions=prods if order % 3 else set(prods))      # list in two orders, or a set
+        return mk_cfg, CFG_OPS, lambda g: C.extract(g)
     if kind == 'PDA': return lambda: P.build(P.from_json(d)), PDA_OPS, lambda p: P.extract(p)
     if kind == 'FST': return lambda: X.build(X.from_json(d)), FST_OPS, lambda f: X.extract(f)
     if kind == 'IG': return lambda: IG.build([tuple(r) for r in d]), IG_OPS, lambda g: (sorted(map(repr, g.rules.rules)), sorted(map(repr, g.rules.consumption_rules.items())))
@@ -176,6 +184,14 @@ def cases(tier, seed):
                 for rep in range(1 if tier == 'quick' else 4):
                     o, o2 = desc(kind)
                     yield {'kind': kind, 'obj': o, 'other': o2, 'history': [a, b], 'origin': 'all ordered pairs of calls'}
+    # query - mutate the object itself - same query again (caches that are not invalidated by every mutator)
+    for kind in ('ENFA', 'NFA', 'DFA'):
+        names = sorted(OPS_BY_KIND[kind])
+        for q in [x for x in names if not x.startswith('SELF.')]:
+            for m in [x for x in names if x.startswith('SELF.')]:
+                for rep in range(2 if tier == 'quick' else 6):
+                    o, o2 = desc(kind)
+                    yield {'kind': kind, 'obj': o, 'other': o2, 'history': [q, m, q], 'origin': 'query, mutate, same query'}
     for i in range(n):
         R = F.random_enfa(rng, rng.choice([1, 2, 3]), ['a', 'b'], eps=rng.random() < 0.5); R2 = F.random_enfa(rng, rng.choice([1, 2]), ['a', 'b'], eps=rng.random() < 0.5)
         yield {'kind': 'ENFA', 'obj': F.to_json(R), 'other': F.to_json(R2), 'history': hist('ENFA')}
